@@ -169,6 +169,62 @@ func TestC20(t *testing.T) {
 			return out
 		}
 		first := render()
+		// one template data object configured several times (options switched back and forth,
+		// ending at the same settings) and rendered twice gives the same files as fresh data
+		nflips := rapid.IntRange(0, 3).Draw(t, "optionflips")
+		var flips []string
+		for i := 0; i < nflips; i++ {
+			flips = append(flips, rapid.SampledFrom([]string{"enums", "extended"}).Draw(t, "flip"))
+		}
+		if nflips > 0 {
+			var names []string
+			for n := range schema.Tables {
+				names = append(names, n)
+			}
+			sort.Strings(names)
+			for _, name := range names {
+				table := schema.Tables[name]
+				args := modelgen.GetTableTemplateData(pkg, name, &table)
+				e, x := enumTypes, ext
+				// walk backwards so that the last calls leave (ext, enumTypes)
+				type call struct {
+					which string
+					v     bool
+				}
+				var calls []call
+				for i := len(flips) - 1; i >= 0; i-- {
+					if flips[i] == "enums" {
+						calls = append([]call{{"enums", e}}, calls...)
+						e = !e
+					} else {
+						calls = append([]call{{"extended", x}}, calls...)
+						x = !x
+					}
+				}
+				calls = append([]call{{"enums", e}, {"extended", x}}, calls...)
+				for _, c := range calls {
+					if c.which == "enums" {
+						args.WithEnumTypes(c.v)
+					} else {
+						args.WithExtendedGen(c.v)
+					}
+				}
+				args.WithEnumTypes(enumTypes)
+				args.WithExtendedGen(ext)
+				for twice := 0; twice < 2; twice++ {
+					src, err := gen.Format(modelgen.NewTableTemplate(), args)
+					if err != nil {
+						kase.Table = name
+						fail("generate.error", "table %s: the generator fails on reconfigured template data (%v): %v", name, calls, err)
+					}
+					if !bytes.Equal(src, first[modelgen.FileName(name)]) {
+						kase.Table, kase.Source = name, string(src)
+						fail("generate.option-history", "table %s: template data configured with %v (then enum types %v, extended %v) renders differently from fresh data with the same settings", name, calls, enumTypes, ext)
+					}
+				}
+			}
+			kit.Label("C20", "option-history")
+		}
 		for run := 0; run < 3; run++ {
 			again := render()
 			for name, src := range first {
